@@ -778,14 +778,16 @@ func argsOf(ci ssa.CallInstruction) []ssa.Value {
 	var facts []Fact
 	var out []ssa.Value
 	for i, a := range args {
-		if _, isPhi := a.(*ssa.Phi); isPhi {
+		if phi, isPhi := strip(a).(*ssa.Phi); isPhi {
 			if facts == nil {
 				facts = factsAt(ci)
 			}
-			if out == nil {
-				out = append([]ssa.Value{}, args...)
+			if rv := refine(phi, facts); rv != ssa.Value(phi) {
+				if out == nil {
+					out = append([]ssa.Value{}, args...)
+				}
+				out[i] = rv // (an interface or type conversion around the merge is dropped, as describe does)
 			}
-			out[i] = refine(a, facts)
 		}
 	}
 	if out != nil {
